@@ -3,7 +3,7 @@ CONSTANTS
   MaxW = 3
   MaxT = 7
   MaxC = 1
-  Dups = TRUE
+  Dups = FALSE
   MaxEdits = 2
   Extras = TRUE
   Emit = FALSE
@@ -18,6 +18,7 @@ SPECIFICATION Spec
 INVARIANT LayoutValid
 INVARIANT Refines
 INVARIANT RoundTrip
+INVARIANT KeepExact
 INVARIANT TailOK
 INVARIANT EditResult
 INVARIANT StillValid
